@@ -2,7 +2,7 @@
    what evaluating the rendered annotation yields (evt t: unions rebuilt by typing's Union, None last
    under Optional) admits everything the annotation type t admits; composed with C11's token-level theorem
    (ev ns (rast t) = Some (evt t)) and with Proofs/Pipeline.v. *)
-From MT Require Import Types Infer Rewrite Hier TypesFacts UnionFacts Render RenderTok Pipeline.
+From MT Require Import Types Infer Rewrite Hier TypesFacts UnionFacts Render RenderTok PipelineCorr Pipeline.
 
 Section EvtMember.
 Variable anyb : bool.
@@ -208,6 +208,31 @@ Proof.
   apply member_evt; [exact Hok|]. eapply pipeline_sound; eauto.
 Qed.
 
+(* ---------- reduction of the rendering step to C11's denotation property ----------
+   C11 checks, per annotation, that the text evaluates (in the stub's namespace, forward references resolved
+   through the generated TypedDict classes) to a type D corresponding (corrb) to the traced one.  Wherever that
+   holds — TypedDict-bearing annotations included — the evaluated annotation admits every observed value. *)
+Definition anno_denotes (ct : ctable) (ns : namespace) (fuel : nat) (text : string) (A : ty) : Prop :=
+  exists D, eval_anno ct ns fuel text = Some D /\ corrb A D = true.
+Definition anno_admits (h : hierarchy) (ct : ctable) (ns : namespace) (fuel : nat) (text : string) (v : value) : Prop :=
+  exists D, eval_anno ct ns fuel text = Some D /\ member true (subclass h) v D = true.
+
+Theorem pipeline_sound_denoted h bt k rs (obs : list value) (stored : list ty) T v ct ns fuel text :
+  wf_hier h = true -> bt_ok h bt = true -> chain_ok rs = true ->
+  forallb wf_valueb obs = true ->
+  (forall x, In x obs -> exists t t', get_type k x = Some t /\ In t' stored /\ corrb t t' = true) ->
+  Forall wf_ty stored ->
+  shrink_top k stored = Some T -> In v obs ->
+  anno_denotes ct ns fuel text (rw_chain h bt rs T) -> anno_admits h ct ns fuel text v.
+Proof.
+  intros Hh Hb Hc WV Hst Wst HS Hv [D [E C]]. exists D. split; [exact E|].
+  apply (member_corrb_wf true (subclass h) (rw_chain h bt rs T) D v).
+  - eapply pipeline_wf; eauto.
+  - exact C.
+  - eapply pipeline_sound; eauto.
+Qed.
+
 Print Assumptions member_evt.
 Print Assumptions pipeline_sound_rendered_partial.
 Print Assumptions pipeline_sound_rendered_text_partial.
+Print Assumptions pipeline_sound_denoted.
